@@ -155,16 +155,37 @@ def joinArgs : List Str := ["", ".", "..", "a", "/a", "a/", "../a", " .", "a/../
 
 /-! ## import graphs -/
 
-/-- a script of a generated layout -/
+/-- content language of the generated scripts: a constant tuple with the list of imports, optionally a
+reference `f: <name>` / `f: .` to a name, and optionally a binder around the whole body
+(`let n = k; …`, `(\n …)(k)`, `k -> …`).  A script whose reference is not bound by its OWN binder is an
+open term: imported code is evaluated in a scope that holds only `//`, so it must fail whatever its
+importers bind. -/
 structure Script where
   path : List Str            -- absolute components
   id : Nat
   imports : List (Bool × Str)  -- (dot, raw)
+  wrap : Nat := 0            -- 0 none, 1 let, 2 function parameter, 3 arrow (binds `.`)
+  wname : String := "base"
+  wval : Nat := 0
+  ref : Nat := 0             -- 0 none, 1 the name `rname`, 2 `.`
+  rname : String := "base"
 
 def importSrc (i : Bool × Str) : String := "//{" ++ (if i.1 then "." else "") ++ str i.2 ++ "}"
 
+def Script.closed (s : Script) : Bool :=
+  s.ref == 0 || (s.ref == 1 && (s.wrap == 1 || s.wrap == 2) && s.wname == s.rname) || (s.ref == 2 && s.wrap == 3)
+
 def scriptSrc (s : Script) : String :=
-  s!"(id: {s.id}, imps: [" ++ ", ".intercalate (s.imports.map importSrc) ++ "])"
+  let refSrc := if s.ref == 1 then s!", f: {s.rname}" else if s.ref == 2 then ", f: ." else ""
+  let body := s!"(id: {s.id}, imps: [" ++ ", ".intercalate (s.imports.map importSrc) ++ "]" ++ refSrc ++ ")"
+  match s.wrap with
+  | 1 => s!"let {s.wname} = {s.wval}; {body}"
+  | 2 => s!"(\\{s.wname} {body})({s.wval})"
+  | 3 => s!"{s.wval} -> {body}"
+  | _ => body
+
+def Script.value (s : Script) (kids : List V) : V :=
+  V.mkTup ([("id", .num s.id), ("imps", V.mkArr kids)] ++ (if s.ref != 0 then [("f", .num s.wval)] else []))
 
 structure Layout where
   cwd : Str
@@ -202,11 +223,22 @@ def Layout.explore (l : Layout) : Nat → List Str → List (Str × List (Option
 mutual
 def treeV (l : Layout) : Tree Str → V
   | .node k kids =>
-    let id := match l.scriptAt (comps l.cwd k) with | some s => s.id | none => 0
-    V.mkTup [("id", .num id), ("imps", V.mkArr (treesV l kids))]
+    match l.scriptAt (comps l.cwd k) with
+    | some s => s.value (treesV l kids)
+    | none => V.mkTup []
 def treesV (l : Layout) : List (Tree Str) → List V
   | [] => []
   | t :: r => treeV l t :: treesV l r
+end
+
+/- does the evaluation reach an open script? (everything compiled is evaluated: the bodies are strict) -/
+mutual
+def treeOpen (l : Layout) : Tree Str → Bool
+  | .node k kids =>
+    (match l.scriptAt (comps l.cwd k) with | some s => !s.closed | none => false) || treesOpen l kids
+def treesOpen (l : Layout) : List (Tree Str) → Bool
+  | [] => false
+  | t :: r => treeOpen l t || treesOpen l r
 end
 
 /-- evaluate `main` (given by the path string `mainPath`) over the layout with the model -/
@@ -214,7 +246,9 @@ def Layout.run (l : Layout) (mainPath : Str) (main : Script) : String :=
   let imps := l.edges mainPath main
   let g : Graph Str := ⟨l.explore 200 (imps.filterMap id) []⟩
   match compileMain g imps with
-  | .ok ts => (V.mkTup [("id", .num main.id), ("imps", V.mkArr (treesV l ts))]).canon
+  | .ok ts =>
+    if !main.closed || treesOpen l ts then "error"       -- a free name: an error regardless of the importers
+    else (main.value (treesV l ts)).canon
   | .error (.err _) => "error"
   | .error .hang => "timeout"
   | .error .fuel => "model-out-of-fuel"
@@ -254,6 +288,45 @@ def Layout.opens (l : Layout) (mainPath : Str) (main : Script) : String :=
 
 def Layout.obs (l : Layout) (mainPath : Str) (main : Script) : String :=
   s!"open={l.opens mainPath main}|out={l.run mainPath main}"
+
+/-- binders and references: mode 0 none; mode 1 binders (and self-bound references) everywhere, all
+scripts closed — importers' bindings must not change anything; mode 2 one script is OPEN and every other
+script binds the name it refers to, each with a different value -/
+def decorate (scripts : List Script) : Gen (List Script × String) := do
+  let mode ← pick [0, 0, 1, 2, 2]
+  let nm ← pick ["base", "x"]
+  match mode with
+  | 0 => pure (scripts, "")
+  | 1 =>
+    let mut out := []
+    let mut i := 0
+    for s in scripts do
+      let w ← rand 6
+      let selfRef ← chance 1 3
+      let s' : Script :=
+        if w == 0 || w > 3 then s
+        else { s with wrap := w, wname := nm, wval := 5 + i,
+                      ref := if selfRef then (if w == 3 then 2 else 1) else 0, rname := nm }
+      out := s' :: out
+      i := i + 1
+    pure (out.reverse, "/binders")
+  | _ =>
+    let kind ← pick [1, 2]
+    let victim ← (do let k ← rand (scripts.length - 1); pure (k + 1))
+    let other := if nm == "base" then "x" else "base"
+    let mut out := []
+    let mut i := 0
+    for s in scripts do
+      let w ← rand 2
+      let s' : Script :=
+        if i == victim then
+          -- refers to a name it does not bind itself (it may bind another one)
+          { s with ref := kind, rname := nm, wrap := if w == 0 then 0 else 1, wname := other, wval := 3 }
+        else if kind == 1 then { s with wrap := 1 + w, wname := nm, wval := 5 + i }
+        else { s with wrap := 3, wval := 5 + i }
+      out := s' :: out
+      i := i + 1
+    pure (out.reverse, "/open")
 
 def relDirs : List (List Str) := [[], [], ["d".toList], ["d".toList, "e".toList], ["lib".toList], ["d".toList, "x y".toList]]
 
@@ -335,8 +408,9 @@ def genLayout (shape : Nat) : Gen (Layout × Str × Script) := do
   let cwdCs := levelComps cwdLevel
   let mainPath : Str :=
     if !absolute && cwdCs <+: mainCs then joinSlash (mainCs.drop cwdCs.length) else render true mainCs
-  let l : Layout := { cwd := cwdStr, root, sentinels := if hasMod then [root] else [], scripts := scriptsR }
-  pure (l, mainPath, scriptsR.headD { path := [], id := 0, imports := [] })
+  let (scriptsD, _) ← decorate scriptsR
+  let l : Layout := { cwd := cwdStr, root, sentinels := if hasMod then [root] else [], scripts := scriptsD }
+  pure (l, mainPath, scriptsD.headD { path := [], id := 0, imports := [] })
 
 def graphCaseOf (id stratum : String) (l : Layout) (mainPath : Str) (main : Script) : Case :=
   let obs := l.obs mainPath main
@@ -423,11 +497,15 @@ def genNested : Gen (Layout × Str × Script × Script) := do
   pure ({ cwd := cwdStr, root, sentinels, scripts := scripts.reverse }, mainPath, fwd, rev)
 
 def genNestedCases (idx : Nat) : Gen (List Case) := do
-  let (l, mainPath, fwd, rev) ← genNested
-  let lf : Layout := { l with scripts := fwd :: l.scripts }
-  let lr : Layout := { l with scripts := rev :: l.scripts }
-  pure [ graphCaseOf s!"C16-n{idx}-fwd" "nested/fwd" lf mainPath fwd,
-         graphCaseOf s!"C16-n{idx}-rev" "nested/rev" lr mainPath rev ]
+  let (l, mainPath, fwd0, _) ← genNested
+  let (deco, tag) ← decorate (fwd0 :: l.scripts)
+  let fwd := deco.headD fwd0
+  let rev : Script := { fwd with imports := fwd.imports.reverse }
+  let rest := deco.drop 1
+  let lf : Layout := { l with scripts := fwd :: rest }
+  let lr : Layout := { l with scripts := rev :: rest }
+  pure [ graphCaseOf s!"C16-n{idx}-fwd" ("nested/fwd" ++ tag) lf mainPath fwd,
+         graphCaseOf s!"C16-n{idx}-rev" ("nested/rev" ++ tag) lr mainPath rev ]
 
 /-! ## corpus: witnesses of the repaired defects and minimised past failures -/
 def mkScript (path : String) (id : Nat) (imports : List (Bool × String)) : Script :=
